@@ -315,6 +315,8 @@ def collect_obligations(source, registry, models_cls, contract, prune=True):
     info["paths"] = len(outs)
     info["path_kinds"] = kinds
     info["stats"] = dict(ex.stats)
+    if getattr(ex, "auto_inlined", None):
+        info["auto_inlined"] = sorted(ex.auto_inlined)
     return obs, info, outs
 
 
